@@ -233,7 +233,8 @@ Theorem C14_hourly_trees_have_no_lock :
 Proof. vm_compute. reflexivity. Qed.
 Print Assumptions C14_hourly_trees_have_no_lock.
 
-(* build -> store -> reload, exhaustive inside Coq over every leaf x every model-side alternative (developer leaves
+(* build -> store -> reload, exhaustive inside Coq over every leaf x every model-side alternative (at most four
+   members of a long enum; developer leaves
    overridden in developer mode, open leaves without it), on the regenerated trees:
      current daily model, BillingModel        : every accepted construction reloads, and the reloaded settings dump
                                                 to the record;
